@@ -461,6 +461,59 @@ def run_hostile(env, r, rec):
                 rec.count("oversize_recv_refused_before_body")
 
 
+BAD_KEYS = ["ÅBCD", "ABÅD", "ABCÅ", "😀BCD", "étés", "ÿÿÿÿ", "A\x80CD", "日本語x", "AB", "ABCDE", "", "ABC", "\udc80BCD"]
+BAD_IDS = [b"\xc3\x85BC", b"\xf0\x9f\x98\x80", b"AB\xc3\xa9", b"\xe6\x97\xa5A", b"\xff\xfe\xfd\xfc", b"\x80ABC", b"AB\x00\xc2"]
+
+
+def annotation_id_cases(env, rec):
+    """annotation identifiers are four ASCII characters. Any other key is refused by the encoder - or, if it is taken, it arrives as exactly that
+    key; a chunk id that is not ASCII is refused by the decoder - or, if it is taken, the decoded message can be encoded again to the same bytes"""
+    P = env.protocol
+    env.set(False, MAXES[-1], None, True)
+    for key in BAD_KEYS:
+        for extra in ({}, {"GOOD": b"g"}, {key[:-1] + "E" if key else "XXXX": b"second"}):
+            anns = dict(extra)
+            anns[key] = b"value"
+            rec.case(("bad-annotation-key", key, tuple(sorted(extra))), nontrivial=True)
+            try:
+                sm = P.SendingMessage(4, 0, 1, 1, b"payload", annotations=dict(anns))
+            except Exception:
+                rec.count("bad_annotation_keys_refused")
+                continue
+            try:
+                ref = wire.decode(bytes(sm.data), MAXES[-1])
+                ref_anns = {k.decode("latin-1") if isinstance(k, bytes) else k: bytes(v) for k, v in dict(ref.anns).items()}
+            except wire.WireError as x:
+                rec.violation("sender-built-illformed-message", "annotation key %r was accepted by the encoder; the reference decoder rejects the message: %s" % (key, x), None)
+                continue
+            try:
+                got = {k: bytes(v) for k, v in env.decode_direct(bytes(sm.data)).annotations.items()}
+            except Exception as x:
+                got = "decoder raises %r" % (x,)
+            want = {k: bytes(v) for k, v in anns.items()}
+            if got != want:
+                rec.violation("decode-mismatch", "annotations %r were accepted by the encoder but arrive as %r (%d chunk(s) on the wire)" % (want, got, len(ref_anns)), None)
+            else:
+                rec.count("bad_annotation_keys_roundtrip")
+    for cid in BAD_IDS:
+        buf = wire.encode(4, 0, 1, 1, b"payload", [(cid, b"value")])
+        rec.case(("bad-annotation-id", cid), nontrivial=True)
+        try:
+            m = env.decode_direct(buf)
+        except Exception:
+            rec.count("bad_annotation_ids_refused")
+            continue
+        try:
+            again = bytes(P.SendingMessage(m.type, m.flags, m.seq, m.serializer_id, bytes(m.data), annotations={k: bytes(v) for k, v in m.annotations.items()}).data)
+        except Exception as x:
+            again = "encoder raises %r" % (x,)
+        if again != buf:
+            rec.violation("reencode-not-equivalent", "a message whose annotation chunk id is %r was accepted (as %r); encoding what was decoded gives %s" % (
+                cid, sorted(m.annotations), again if isinstance(again, str) else "other bytes"), None)
+        else:
+            rec.count("bad_annotation_ids_roundtrip")
+
+
 def run_shard(shard, rec):
     if shard.get("kind") == "e10":
         from vlib import e10
@@ -471,6 +524,7 @@ def run_shard(shard, rec):
     env.socketutil.time = type("T", (), {"sleep": staticmethod(lambda s: None)})   # no back-off waits on the fake socket
     r = gen.rng(rec.seed, "c06", shard["i"])
     if shard.get("boundaries"):
+        annotation_id_cases(env, rec)
         for f in boundary_cases():
             run_roundtrip(env, f, rec, r)
             rec.count("boundary_cases")
